@@ -368,6 +368,8 @@ def forwarding(ctx: Ctx):
     dispatch_rules(ctx)
     own_loops_select_through_the_shared_selector(ctx)
     start_sampler_draws_feasible_actions(ctx)
+    beam_ranking_in_log_space(ctx)
+    flags_bound_to_their_parameters(ctx)
 
 
 def step_forwarding(ctx: Ctx, rid: str = "C10.d"):
@@ -486,6 +488,56 @@ def start_sampler_draws_feasible_actions(ctx: Ctx):
             whyr = f"the guard counts feasible actions with {vg.show(cnts[0], 3)[:80]}: over the action axis -- {ax}" + \
                 ("" if ax else "; a count over the batch axis says how many INSTANCES offer a node, not how many nodes an instance offers: a row with fewer than n feasible actions is drawn without replacement")
     ctx.ob("C10.h", "sample_n_random_actions:no-replacement-needs-n-feasible-per-row", okr, fi.loc, whyr, construct="sample_n_random_actions:replacement-count-axis")
+
+
+def beam_ranking_in_log_space(ctx: Ctx):
+    """C10.i beam search keeps the k most likely feasible extensions: the ranking key is log p(extension) + log p(parent) (C13.b,
+    shared).  Ranking exp(.) instead underflows to exactly 0 for long sequences: every extension ties at 0, masked ones
+    included, and top-k returns infeasible actions."""
+    from . import C13
+    from ..core import Ctx as _Ctx
+    sub = _Ctx("C13", ctx.repo, "quick", 0)
+    import contextlib, io
+    with contextlib.redirect_stdout(io.StringIO()):
+        C13.run(sub)
+    got = [o for o in sub.obligations if o.rule == "C13.b"]
+    if not got:
+        raise AnalysisError("C13.b obligations (beam score) not produced")
+    for o in got:
+        o.rule = "C10.i"
+        ctx.obligations.append(o)
+
+
+def flags_bound_to_their_parameters(ctx: Ctx):
+    """C10.j a module that forwards its own option `self.A` to one of its methods binds it to the parameter named `A`.  For every
+    call `self.m(...)` inside a class of rl4co/models and rl4co/utils/decoding.py whose callee is a method of that class (MRO in
+    the repo): a positional argument `self.A`, where the callee has a parameter called `A`, must land on that parameter --
+    `calc_logits(x, h, mask, ctx, self.mask_glimpses, self.mask_logits)` against a signature that lists `mask_logits` first
+    masks the glimpses by the logits flag and the logits by the glimpse flag (PtrNet with mask_logits=False then samples
+    infeasible actions)."""
+    n = 0
+    for name, mi in sorted(ctx.repo.modules.items()):
+        if not (name.startswith("rl4co.models") or name == "rl4co.utils.decoding"):
+            continue
+        for cn, c in sorted(mi.classes.items()):
+            for mn, fi in sorted(c.methods.items()):
+                for call in ast.walk(fi.node):
+                    if not (isinstance(call, ast.Call) and isinstance(call.func, ast.Attribute) and isinstance(call.func.value, ast.Name) and call.func.value.id == "self"):
+                        continue
+                    callee = ctx.repo.resolve_method(c, call.func.attr)
+                    if callee is None or any(isinstance(a, ast.Starred) for a in call.args):
+                        continue
+                    params = [p_ for p_ in callee.params() if p_ != "self"]
+                    for pos, a in enumerate(call.args):
+                        if isinstance(a, ast.Attribute) and isinstance(a.value, ast.Name) and a.value.id == "self" and a.attr in params and pos < len(params):
+                            n += 1
+                            ok = params[pos] == a.attr
+                            ctx.ob("C10.j", f"{cn}.{mn}:{call.func.attr}:self.{a.attr}", ok, f"{mi.relpath}:{call.lineno}",
+                                   f"self.{a.attr} is passed at position {pos} of {call.func.attr}(...), parameter `{params[pos]}`" +
+                                   ("" if ok else f": the callee has a parameter `{a.attr}` at position {params.index(a.attr)} -- the two options are exchanged"),
+                                   construct=f"{cn}.{mn}:{call.func.attr}:positional:{a.attr}")
+    if n < 2:
+        raise AnalysisError(f"positional self-option arguments lost: {n} < 2 (PtrNet Decoder.recurrence -> calc_logits expected)")
 
 
 def dispatch_rules(ctx: Ctx):
